@@ -18,19 +18,29 @@
 EXTENDS Naturals, Sequences, SequencesExt, FiniteSets, TLC
 
 EOS == 0
-VARIABLES cfg,      \* [n, cap, b, fail]  fail = 0: no fault, else the position whose read raises
-          ppc,      \* producer control: "read" | "put" | "eos" | "done"
-          pi,       \* next position the producer reads / puts
-          q,        \* queue content (positions, EOS)
-          cpc,      \* consumer control: "get" | "infer" | "join" | "end"
-          batch,    \* frames collected for the current batch
-          sawEOS,   \* done flag of the consumer
-          out,      \* sequence of batches handed to the inference model
-          eosPut    \* number of end-of-stream markers ever enqueued
+\* (the @type comments are Apalache annotations - TLC ignores them; see drivers/C13.py, inductive check)
+VARIABLES
+    \* @type: { n: Int, cap: Int, b: Int, fail: Int };
+    cfg,      \* [n, cap, b, fail]  fail = 0: no fault, else the position whose read raises
+    \* @type: Str;
+    ppc,      \* producer control: "read" | "put" | "eos" | "done"
+    \* @type: Int;
+    pi,       \* next position the producer reads / puts
+    \* @type: Seq(Int);
+    q,        \* queue content (positions, EOS)
+    \* @type: Str;
+    cpc,      \* consumer control: "get" | "infer" | "join" | "end"
+    \* @type: Seq(Int);
+    batch,    \* frames collected for the current batch
+    \* @type: Bool;
+    sawEOS,   \* done flag of the consumer
+    \* @type: Seq(Seq(Int));
+    out,      \* sequence of batches handed to the inference model
+    \* @type: Int;
+    eosPut    \* number of end-of-stream markers ever enqueued
 vars == <<cfg, ppc, pi, q, cpc, batch, sawEOS, out, eosPut>>
 
-Frames(c) == [i \in 1..c.n |-> i]
-
+\* @type: (Set({ n: Int, cap: Int, b: Int, fail: Int })) => Bool;
 FSInit(Configs) ==
     /\ cfg \in Configs
     /\ ppc = (IF cfg.n = 0 THEN "eos" ELSE "read")
@@ -77,7 +87,9 @@ Producer == ProdRead \/ ProdPut \/ ProdEOS
 Consumer == ConsGet \/ ConsInfer \/ ConsJoin
 FSNext == Producer \/ Consumer
 
+\* ==PROPERTIES== (everything below is cut off when the module is handed to Apalache)
 \* ------------------------------------------------------------------ properties (C13) --------
+Frames(c) == [i \in 1..c.n |-> i]
 Flat == FlattenSeq(out)
 Expected == IF cfg.fail = 0 THEN Frames(cfg) ELSE SubSeq(Frames(cfg), 1, cfg.fail - 1)
 InOrderOnce == IsPrefix(Flat \o batch, Frames(cfg))      \* each frame at most once, in increasing order
